@@ -1157,6 +1157,10 @@ def run(ck, only_rows=None):
     global ROWS
     logging.disable(logging.CRITICAL)
     ck.lean_obligations(generated=["MbiClasses", "IvtConsts"])
+    # every op of drv_c01 evaluates the model of the CODE (Model/Mbi.lean, Model/MbiVx.lean, generated parts): none is Spec-only.
+    # Their answers only feed `compare` (correspondence); every `expect` and every known-finding predicate is computed from the
+    # input and the real code.
+    ck.spec_ops = set()
     drv = ck.driver()
     meta = ck.generated_meta["MbiClasses"]
     ROWS = live_rows()
@@ -1202,7 +1206,8 @@ def run(ck, only_rows=None):
     extra_drivers = []
     if drv is not None:
         for _ in range(3):
-            d = vcore.Driver(drv.exe)
+            d = vcore.Driver(drv.exe, on_death=lambda msg: ck.broken.append(msg + " - correspondence cannot be evaluated"),
+                             spec_ops=lambda: set(ck.spec_ops or ()))
             ck.drivers.append(d)
             extra_drivers.append(d)
     drivers = ([drv] + extra_drivers) if drv is not None else []
